@@ -167,5 +167,13 @@ func (s *Server) handleRPC(stream *drpcstream.Stream, rpc string) (err error) {
 	if err != nil {
 		return errs.Wrap(stream.SendError(err))
 	}
-	return errs.Wrap(stream.CloseSend())
+	if err := stream.CloseSend(); err != nil {
+		return errs.Wrap(err)
+	}
+	// the handler has returned, so nothing will ever receive on this stream
+	// again. terminate it so that messages the client already sent (or is still
+	// sending) are dropped instead of parking the connection's reader forever,
+	// which would keep the next rpc on this connection from ever being read.
+	stream.Cancel(context.Canceled)
+	return nil
 }
